@@ -1,6 +1,6 @@
 SPECIFICATION Spec
 CONSTANTS
   Threshold = "gt10"
-  Dense = 12000
-  W = 40
+  Dense <- DenseQuick
+  W = 30
 INVARIANT DesignOk
